@@ -840,32 +840,39 @@ def _r3_codegen(r, ctx):
         r.inst("parser Formatter -> macro Formatter", "variant by variant, arguments in order")
     else:
         r.viol("R3:Formatter#from", "the parser -> macro Formatter conversion is not the identity", file=MF)
-    kinds = {"var_to_view": ("to_view", ["locale_field", "key"], "(#locale_field,#key"),
-             "var_to_display": ("to_display", ["locale_field", "key"], "(#locale_field,#key"),
-             "var_fmt": ("to_formatter", ["locale_field", "key"], "(__formatter,*#locale_field,")}
-    for name, (suffix, lead, prefix) in kinds.items():
+    # the calls generated for `{{ var, formatter(options) }}`: each of the three generators evaluated (rules/absint.py) on every family,
+    # the emitted tokens compared with format_<family>_<flavour>(.., locale, value, options in declaration order)
+    from rules import absint as _ai
+    from rules.absint import AEval as _AE, C as _C, TOK as _TOK
+    _ai.set_program(ast)
+    VAR = {"Currency": ["W", "CODE"], "Number": ["G"], "Date": ["DL"], "Time": ["TL"], "DateTime": ["DL", "TL"], "List": ["LT", "LS"]}
+    for name, suffix in (("var_to_view", "to_view"), ("var_to_display", "to_display"), ("var_fmt", "to_formatter")):
         fn = ast.fn(MF, name, impl_self="Formatter")
-        m = find_first(fn.body, "Match") if fn else None
-        n = 0
-        for a in (m or {"arms": []})["arms"]:
-            pat = flat(show_pat(a["pat"]))
-            mm = re.match(r"^Formatter::(\w+)\(([\w,]*)\)$", pat)
-            if not mm:
-                continue
-            v, binds = mm.group(1), [x for x in mm.group(2).split(",") if x]
-            qs = xquotes(a["body"])
-            txt = flat(tok_text(qs[0]["tokens"])) if len(qs) == 1 else ""
-            interps = tok_interps(qs[0]["tokens"]) if len(qs) == 1 else []
-            want_fn = "l_i18n_crate::__private::format_%s_%s" % (FAMILY.get(v), suffix)
-            tail = "".join(",#" + b for b in binds) + ")"
-            if txt.startswith(want_fn + prefix) and txt.endswith(tail) and interps == lead + binds:
-                n += 1
-            else:
-                r.viol("R3:%s#%s" % (name, v), "generated call is `%s`: expected %s with the locale field, the value and %s in order" % (txt, want_fn, binds), file=MF)
-        if n == 6:
-            r.inst("Formatter::" + name, "6 families -> format_<family>_%s(locale, value, options in declaration order)" % suffix)
-        elif m is None:
+        if fn is None:
             r.missing("Formatter::" + name)
+            continue
+        n = 0
+        try:
+            for v, opts in VAR.items():
+                got = _AE(funcs={}).run_fn(fn, [_C(v, *[_TOK(o) for o in opts]), _TOK("KEY"), _TOK("LOC")])
+                if isinstance(got, str) or got[0] != "tok":
+                    raise _ai.Unknown(got if isinstance(got, str) else "not tokens: %s" % _ai.fmt(got)[:60])
+                txt = flat(got[1])
+                head = "l_i18n_crate::__private::format_%s_%s(" % (FAMILY[v], suffix)
+                lead = ["LOC,KEY"] if suffix != "to_formatter" else ["__formatter,*LOC,KEY", "__formatter,*LOC,core::clone::Clone::clone(KEY)"]
+                if any(txt == head + l_ + "".join("," + o for o in opts) + ")" for l_ in lead):
+                    n += 1
+                else:
+                    r.viol("R3:%s#%s" % (name, v), "generated call is `%s`: expected %s<locale, value>, %s) in this order" % (txt, head, ", ".join(opts)), file=MF, line=fn.line)
+            none = _AE(funcs={}).run_fn(fn, [_C("None"), _TOK("KEY"), _TOK("LOC")])
+            nt = flat(none[1]) if not isinstance(none, str) and none[0] == "tok" else None
+            want_none = {"var_to_view": "KEY", "var_fmt": "core::fmt::Display::fmt(KEY,__formatter)"}.get(name)
+            if want_none is not None and nt != want_none:
+                r.viol("R3:%s#None" % name, "a variable without formatter is rendered as `%s`, expected `%s`" % (nt if nt is not None else none, want_none), file=MF, line=fn.line)
+            elif n == 6:
+                r.inst("Formatter::" + name, "6 families -> format_<family>_%s(locale, value, options in declaration order); no formatter -> the value itself" % suffix)
+        except _ai.Unknown as u:
+            r.viol("R3:%s#undecided" % name, "cannot be interpreted on the current code (%s): not decided (fail closed)" % str(u)[:200], file=MF, line=fn.line)
 
 
 def _r3_runtime(r, ctx, prog):
